@@ -13,3 +13,11 @@ let () =
     | [id; root; name] ->
       Printf.printf "M %s ok:%s\n" id (hex_of_bytes (http_target (bytes_of_hex root) (bytes_of_hex name)))
     | _ -> failwith "bad httpdir line")
+
+(* C09: FullBaseFsPath(inner wrapper with root b2 over outer wrapper with root b1, rel) *)
+let () =
+  Registry.register_line "fullpath" (fun toks -> match toks with
+    | [id; b1; b2; rel] ->
+      let j a b = path_join [a; b] in
+      Printf.printf "M %s ok:%s\n" id (hex_of_bytes (j (bytes_of_hex b1) (j (bytes_of_hex b2) (bytes_of_hex rel))))
+    | _ -> failwith "bad fullpath line")
